@@ -8,6 +8,7 @@
 """
 
 import struct
+import sys
 from . import _voxelize as vxl
 from ._utilities import export
 
@@ -50,10 +51,13 @@ def voxelize(obj, **kwargs):
         args = [grid_temp, o.evalpts]
 
         # The default padding is relative to the size of a shape which is smaller than 1 (a padding of 10e-8 would reach
-        # into the neighbouring voxels of a model of size 10e-6)
+        # into the neighbouring voxels of a model of size 10e-6) and never below a few units of round-off of the coordinates
+        # (a padding of 10e-8 vanishes beside coordinates of 10e+9: the voxels of a planar shape, whose only thickness is
+        # the padding, would contain nothing)
         kwargs_o = dict(kwargs)
         if 'tol' not in kwargs_o:
-            kwargs_o['tol'] = 10e-8 * min(1.0, max(bmax - bmin for bmin, bmax in zip(*o.bbox)))
+            kwargs_o['tol'] = max(10e-8 * min(1.0, max(bmax - bmin for bmin, bmax in zip(*o.bbox))),
+                                  8.0 * sys.float_info.epsilon * max(abs(coord) for bound in o.bbox for coord in bound))
 
         # Find in-outs
         filled_temp = vxl.find_inouts_mp(*args, **kwargs_o) if num_procs > 1 else vxl.find_inouts_st(*args, **kwargs_o)
